@@ -231,6 +231,7 @@ theorem inv2_of_reach (hm : o.managed = false) (hdet : o.detectConflicts = true)
     have := h.l.histLt x hx
     have hlt' : ({ d with lsm := d.lsm.flush fid } : Db).closeOpen.nextTs - 1 < x.ver := hlt
     omega
+  | dropall _ hmem ih => exact ⟨ih.wr, by intro x hx; cases hx⟩
   | compact _ cd dts hd hi htop hvc hdp hs hcut ih => exact ih.same rfl (Nat.le_refl _) ih.wr
 
 end DbL
